@@ -16,7 +16,15 @@ Every function f becomes
 whose result tuple lists, in this order: for each struct pointer parameter all its (flattened) members, for each array
 parameter the cells written (ascending), and last the return value if the function returns one.  An accompanying
 comment records that signature.  Pure computations of both arms of an `if` are hoisted in front of the conditional
-(they have no side effect; a division by zero in the arm not taken yields a discarded value)."""
+(they have no side effect; a division by zero in the arm not taken yields a discarded value).
+
+Version 2 additions: struct parameters passed BY VALUE (their real members become binders, they are not outputs), struct
+values as expressions (`*ctx`, a struct variable, `{a, b}` initialisers), whole-struct assignment and local struct
+variables; calls to functions translated earlier in the same run (also from another file: the signature table is shared)
+that take struct pointers (`ctx`, `&local`), by-value structs and scalars - the callee's output tuple is destructured and
+written back to the pointed-to members; calls to scalar functions on an explicit allow-list (`externs`) that have no
+body here (libm functions NumOps has no name for) become function-typed binders `x_<name>` of the generated definition,
+passed on to callees that need them."""
 import json
 import math
 import re
@@ -127,6 +135,75 @@ class Fn:
         self.ret_real = is_real_type(node["type"]["qualType"].split("(")[0].strip())
         self.ret_void = node["type"]["qualType"].split("(")[0].strip() == "void"
         self.n_out = 0
+        self.externs = []           # names of allow-listed external scalar functions used (binders x_<name>)
+        self.extern_ok = {}         # allow-list: name -> arity
+        self.param_kinds = []       # per C parameter: ("ptr"|"val", name, [real paths]) | ("real", name)
+
+    def use_extern(self, name):
+        if name not in self.externs:
+            self.externs.append(name)
+        return "x_" + name
+
+    # ---------------------------------------------------------------- struct values
+    def rec_of_type(self, q):
+        """record name when q is a struct type held by value, else None"""
+        if "*" in q or "[" in q:
+            return None
+        q = q.split("':'")[0].strip("'")
+        if is_real_type(q) or is_int_type(q):
+            return None
+        return self.tu.record_of(q)
+
+    def real_paths(self, rec):
+        return [p for p, k in self.tu.flatten(rec) if k == "real"]
+
+    def struct_base(self, n, env):
+        """(base name, path prefix) of a struct lvalue or of a pointer-to-struct expression"""
+        while n["kind"] in ("ImplicitCastExpr", "ParenExpr", "CStyleCastExpr"):
+            n = n["inner"][-1]
+        k = n["kind"]
+        if k == "DeclRefExpr":
+            return (n["referencedDecl"]["name"], "")
+        if k == "UnaryOperator" and n.get("opcode") in ("*", "&"):
+            return self.struct_base(n["inner"][0], env)
+        if k == "MemberExpr":
+            b = self.struct_base(n["inner"][0], env)
+            return (b[0], b[1] + n["name"] + ".")
+        if k == "ArraySubscriptExpr":
+            idx = self.const_int(n["inner"][1], env)
+            b = self.struct_base(n["inner"][0], env)
+            return (b[0], "%s[%d]." % (b[1].rstrip("."), idx))
+        raise Unsupported("struct expression %s at %s" % (k, self.where(n)))
+
+    def struct_read(self, base, rec, env, n):
+        return [self.read_loc(("mem", base[0], base[1] + p), env, n) for p in self.real_paths(rec)]
+
+    def struct_write(self, base, rec, vals, env):
+        for p, v in zip(self.real_paths(rec), vals):
+            self.assign(("mem", base[0], base[1] + p), self.real(v), env)
+
+    def struct_value(self, n, env):
+        """list of member terms (declaration order, flattened) of a struct-valued expression"""
+        while n["kind"] in ("ImplicitCastExpr", "ParenExpr", "CStyleCastExpr", "ConstantExpr"):
+            n = n["inner"][-1]
+        rec = self.rec_of_type(n["type"]["qualType"])
+        if n["kind"] in ("InitListExpr", "CompoundLiteralExpr"):
+            if n["kind"] == "CompoundLiteralExpr":
+                return self.struct_value(n["inner"][0], env)
+            vals = []
+            for c in n.get("inner", []):
+                if self.rec_of_type(c["type"]["qualType"]):
+                    vals += self.struct_value(c, env)
+                else:
+                    vals.append(self.real(self.expr(c, env)))
+            if len(vals) != len(self.real_paths(rec)):
+                raise Unsupported("partial struct initialiser at %s" % self.where(n))
+            return vals
+        if n["kind"] == "BinaryOperator" and n.get("opcode") == "=":
+            vals = self.struct_value(n["inner"][1], env)
+            self.struct_write(self.struct_base(n["inner"][0], env), rec, vals, env)
+            return vals
+        return self.struct_read(self.struct_base(n, env), rec, env, n)
 
     def fresh(self, base):
         base = coq_ident(base) or "t"
@@ -177,7 +254,7 @@ class Fn:
         if n["kind"] == "MemberExpr":
             b = self.lvalue_base(n["inner"][0], env)
             return (b[0], (b[1] + "." if b[1] else "") + n["name"])
-        if n["kind"] == "UnaryOperator" and n.get("opcode") == "&":
+        if n["kind"] == "UnaryOperator" and n.get("opcode") in ("&", "*"):
             return self.lvalue_base(n["inner"][0], env)
         if n["kind"] == "ArraySubscriptExpr":
             idx = self.const_int(n["inner"][1], env)
@@ -225,6 +302,9 @@ class Fn:
         k = n["kind"]
         if k in ("ParenExpr", "ConstantExpr"):
             return self.expr(n["inner"][0], env)
+        if k != "CallExpr" and "type" in n and self.rec_of_type(n["type"]["qualType"]):
+            self.struct_value(n, env)
+            return None
         if k in ("ImplicitCastExpr", "CStyleCastExpr"):
             ck = n.get("castKind")
             v = self.expr(n["inner"][-1], env)
@@ -308,6 +388,8 @@ class Fn:
             if callee["kind"] != "DeclRefExpr":
                 raise Unsupported("indirect call at %s" % self.where(n))
             fname = callee["referencedDecl"]["name"]
+            if fname in self.translated and not (self.translated[fname]["scalar_only"] and not self.translated[fname].get("externs")):
+                return self.call_translated(fname, n, env)
             args = [self.real(self.expr(a, env)) for a in n["inner"][1:]]
             base = fname[:-1] if fname.endswith("f") and fname[:-1] in list(LIB1) + list(LIB2) + ["sqrt", "fabs"] else fname
             if base in LIB1:
@@ -318,10 +400,52 @@ class Fn:
                 return "(sqrt O %s)" % args[0]
             if base == "fabs":
                 return "(abs O %s)" % args[0]
-            if fname in self.translated and self.translated[fname]["scalar_only"]:
+            if fname in self.translated and self.translated[fname]["scalar_only"] and not self.translated[fname].get("externs"):
                 return "(gen_%s O %s)" % (fname, " ".join(args))
+            if fname in self.translated:
+                return self.call_translated(fname, n, env)
+            if base in self.extern_ok and self.extern_ok[base] == len(args):
+                return "(%s %s)" % (self.use_extern(base), " ".join(args))
             raise Unsupported("call to %s at %s" % (fname, self.where(n)))
         raise Unsupported("expression %s at %s" % (k, self.where(n)))
+
+    def call_translated(self, fname, n, env):
+        sig = self.translated[fname]
+        actual = n["inner"][1:]
+        kinds = sig["param_kinds"]
+        if len(actual) != len(kinds):
+            raise Unsupported("call to %s with %d arguments at %s" % (fname, len(actual), self.where(n)))
+        args, writes = [], []
+        for a, pk in zip(actual, kinds):
+            if pk[0] == "real":
+                args.append(self.real(self.expr(a, env)))
+            elif pk[0] == "val":
+                args += self.struct_value(a, env)
+            elif pk[0] == "ptr":
+                base = self.struct_base(a, env)
+                args += [self.read_loc(("mem", base[0], base[1] + p), env, n) for p in pk[2]]
+                writes.append((base, pk[2]))
+            else:
+                raise Unsupported("call to %s: parameter kind %s at %s" % (fname, pk[0], self.where(n)))
+        ext = ["x_" + self.use_extern(e)[2:] for e in sig.get("externs", [])]
+        call = "(gen_%s O %s)" % (fname, " ".join(ext + args))
+        outs = []
+        for base, paths in writes:
+            for p in paths:
+                outs.append((("mem", base[0], base[1] + p), self.fresh((base[1] + p).split(".")[-1])))
+        rv = None
+        if sig["returns_value"]:
+            rv = self.fresh("r_" + fname.replace("a_", "", 1))
+        names = [v for _, v in outs] + ([rv] if rv else [])
+        if not names:
+            return None
+        if len(names) == 1:
+            self.lines.append("let %s := %s in" % (names[0], call))
+        else:
+            self.lines.append("let '(%s) := %s in" % (", ".join(names), call))
+        for loc, v in outs:
+            env[loc] = v
+        return rv
 
     def coerce_for(self, lhs, v):
         return self.real(v) if not isinstance(v, IntConst) or is_real_type(lhs["type"]["qualType"]) else v
@@ -360,6 +484,11 @@ class Fn:
                 if m:
                     continue                      # local array: cells appear when assigned
                 init = [c for c in d.get("inner", []) if "Expr" in c["kind"] or "Literal" in c["kind"] or "Operator" in c["kind"]]
+                lrec = self.rec_of_type(q)
+                if lrec:
+                    if init:
+                        self.struct_write((d["name"], ""), lrec, self.struct_value(init[0], env), env)
+                    continue
                 if init:
                     v = self.expr(init[0], env)
                     v = self.real(v) if is_real_type(q) else v
@@ -445,20 +574,31 @@ class Fn:
             q = p["type"]["qualType"]
             name = p.get("name", "_")
             rec = self.tu.record_of(q) if "*" in q else None
+            vrec = self.rec_of_type(q)
             if rec:
                 fields = self.tu.flatten(rec)
                 self.structs.append((name, rec, fields))
+                self.param_kinds.append(("ptr", name, [p_ for p_, k_ in fields if k_ == "real"]))
                 for path, kind in fields:
                     if kind == "real":
                         v = self.fresh("%s_%s" % (name, path))
                         binders.append(v)
                         env[("mem", name, path)] = v
+            elif vrec:
+                paths = self.real_paths(vrec)
+                self.param_kinds.append(("val", name, paths))
+                for path in paths:
+                    v = self.fresh("%s_%s" % (name, path))
+                    binders.append(v)
+                    env[("mem", name, path)] = v
             elif "*" in q and is_real_type(q.replace("*", "").replace("__restrict", "").strip()):
                 self.array_params.append(name)
+                self.param_kinds.append(("array", name))
             elif is_real_type(q):
                 v = self.fresh(name)
                 binders.append(v)
                 env[("var", name)] = v
+                self.param_kinds.append(("real", name))
             elif is_int_type(q):
                 raise Unsupported("integer parameter %s of %s" % (name, self.name))
             else:
@@ -471,18 +611,25 @@ class Fn:
                "arrays_written": sorted([(a, i) for (_, a, i) in self.written_cells]),
                "arrays_read": [(a, i) for (a, i, _) in self.reads],
                "returns_value": not self.ret_void,
-               "scalar_only": not self.structs and not self.array_params}
+               "param_kinds": self.param_kinds, "externs": list(self.externs),
+               "scalar_only": not self.structs and not self.array_params and all(pk[0] == "real" for pk in self.param_kinds)}
         allb = binders + read_binders
         # the result type is stated: without it Coq's elaboration of nested lets is exponential
-        rty = "unit" if self.n_out == 0 else " * ".join(["T"] * self.n_out)
-        text = "Definition gen_%s {T : Type} (O : NumOps T)%s : %s :=\n    %s." % (
-            self.name, (" (" + " ".join(allb) + " : T)") if allb else "", rty, term)
+        tys = ["T"] * self.n_out
+        if tys and not self.ret_void and self.node["type"]["qualType"].split("(")[0].strip() in ("a_bool", "_Bool", "bool"):
+            tys[-1] = "bool"
+        rty = "unit" if self.n_out == 0 else " * ".join(tys)
+        extb = "".join(" (x_%s : %s)" % (e, " -> ".join(["T"] * (self.extern_ok[e] + 1))) for e in self.externs)
+        text = "Definition gen_%s {T : Type} (O : NumOps T)%s%s : %s :=\n    %s." % (
+            self.name, extb, (" (" + " ".join(allb) + " : T)") if allb else "", rty, term)
         return text, sig
 
     def _scan_written(self, n):
         if isinstance(n, dict):
             if n.get("kind") in ("BinaryOperator", "CompoundAssignOperator") and n.get("opcode", "").endswith("=") and n.get("opcode") not in ("==", "!=", "<=", ">="):
                 try:
+                    if self.rec_of_type(n["inner"][0].get("type", {}).get("qualType", "")):
+                        raise Unsupported("struct")
                     loc = self.lvalue(n["inner"][0], {})
                     if loc[0] == "arr":
                         self.written_cells.add(loc)
@@ -492,26 +639,62 @@ class Fn:
                 self._scan_written(c)
 
 
-def translate_file(path, include, cfg, names, extra=()):
-    """Returns (coq_text, {name: signature}, {name: error}) for the requested function names, in the given order."""
+def translate_file(path, include, cfg, names, extra=(), sigs=None, externs=None):
+    """Returns (coq_text, {name: signature}, {name: error}) for the requested function names, in the given order.
+    `sigs` (shared across calls) lets later files call functions translated from earlier ones; `externs` is the
+    allow-list {name: arity} of body-less scalar functions that become function binders."""
     tu = TU(load_ast(path, include, cfg, extra))
-    out, sigs, errs = [], {}, {}
-    for nm in names:
+    out, errs = [], {}
+    sigs = {} if sigs is None else sigs
+    busy = set()
+
+    def ensure(nm):
+        """translate nm (and, first, the functions with a body in this file that it calls)"""
+        if nm in sigs or nm in errs:
+            return
         node = tu.funcs.get(nm)
         if node is None:
             errs[nm] = "function %s not found with a body in %s" % (nm, path)
-            continue
+            return
+        if nm in busy:
+            errs[nm] = "recursive call cycle through %s" % nm
+            return
+        busy.add(nm)
         try:
-            text, sig = Fn(tu, node, sigs).translate()
+            for callee in sorted(called_functions(node)):
+                if callee in tu.funcs and callee not in sigs and callee != nm:
+                    ensure(callee)
+            fn = Fn(tu, node, sigs)
+            fn.extern_ok = dict(externs or {})
+            text, sig = fn.translate()
             sigs[nm] = sig
-            out.append("(* %s : inputs %s ; outputs: %s%s%s *)\n%s\n" % (
+            out.append("(* %s : inputs %s%s ; outputs: %s%s%s *)\n%s\n" % (
                 nm, " ".join(sig["binders"]) or "-",
+                (" ; externs " + " ".join(sig["externs"])) if sig["externs"] else "",
                 "; ".join("%s{%s}" % (n, ",".join(f)) for n, r, f in sig["structs"]) or "",
                 (" cells " + ",".join("%s[%d]" % c for c in sig["arrays_written"])) if sig["arrays_written"] else "",
                 " return" if sig["returns_value"] else "", text))
         except Unsupported as e:
             errs[nm] = str(e)
+        busy.discard(nm)
+
+    for nm in names:
+        ensure(nm)
     return "\n".join(out), sigs, errs
+
+
+def called_functions(n, acc=None):
+    acc = set() if acc is None else acc
+    if isinstance(n, dict):
+        if n.get("kind") == "CallExpr":
+            c = n["inner"][0]
+            while c.get("kind") in ("ImplicitCastExpr", "ParenExpr"):
+                c = c["inner"][0]
+            if c.get("kind") == "DeclRefExpr":
+                acc.add(c["referencedDecl"]["name"])
+        for c in n.get("inner", []):
+            called_functions(c, acc)
+    return acc
 
 
 HEADER = """(* GENERATED by tools/c2coq.py from the current sources - do not edit. *)
